@@ -83,3 +83,7 @@ def c10_rules(m):
         else:
             r.ob(True, "%s: no node reuse" % f.qualname)
     return [r]
+
+
+def c14_rules(m):
+    return []
